@@ -346,13 +346,13 @@ class Interp:
                         nxt.append((s2, acc))
                         continue
                     for s3, sv in self.to_str(s2, fr, v):
-                        nxt.append((s3, sv if isinstance(sv, Exit) else acc + [sv.t]))
+                        nxt.append((s3, sv if isinstance(sv, Exit) else acc + [sv]))
                 res = nxt
             for s2, acc in res:
                 if isinstance(acc, Exit):
                     out.append((s2, acc))
                 else:
-                    out.append((s2, StrV(z3.Concat(*acc) if len(acc) > 1 else acc[0])))
+                    out.append((s2, sym.str_concat(acc)))
         return out
 
     def to_str(self, st: St, fr: Frame, v: V) -> List[Tuple[St, object]]:
@@ -360,7 +360,7 @@ class Interp:
         if isinstance(v, StrV):
             return [(st, v)]
         if isinstance(v, IntV):
-            return [(st, StrV(z3.IntToStr(v.t)))]
+            return [(st, StrV(sym.itos(v.t)))]
         if isinstance(v, SelfV):
             fi = self.repo.find_method(v.cls, "__str__")
             if fi is None:
@@ -431,7 +431,7 @@ class Interp:
         if isinstance(a, ExtV) and isinstance(b, IntV) and isinstance(op, (ast.Add, ast.Sub)):
             return ExtV(a.inf, a.k + b.t if isinstance(op, ast.Add) else a.k - b.t)
         if isinstance(a, StrV) and isinstance(b, StrV) and isinstance(op, ast.Add):
-            return StrV(z3.Concat(a.t, b.t))
+            return sym.str_concat([a, b])
         return self.theory.binop(st, op, a, b)
 
     def ev_Compare(self, st, fr, e):
@@ -603,8 +603,8 @@ class Interp:
             return [(st, c.items[z3.simplify(key.t).as_long()])]
         if isinstance(c, SeqV) and isinstance(key, IntV):
             return [(st, c.at(key.t))]
-        if isinstance(c, KwV) and isinstance(key, StrV) and z3.is_string_value(key.t):
-            ks = key.t.as_string()
+        if isinstance(c, KwV) and isinstance(key, StrV) and key.lit is not None:
+            ks = key.lit
             if ks in c.d:
                 return [(st, c.d[ks])]
             return [(st, Exit(Exit.RAISE, ExcV("KeyError", [key])))]
